@@ -78,7 +78,14 @@ EXTRA_STEPS = [("d", "$b", "x"), ("d", "${a}", "y"), ("d", "$$a", "x"),
                ("d", "^a", "x"), ("d", "[b", "y"), ("d", "a^", "x"),
                ("d", "`a", "x"), ("d", "b]", "y"), ("d", "a\\b", "x"),
                ("u", "{^a}"), ("u", "{a^}"), ("u", "{[b}"), ("u", "a[0]"),
-               ("d", "@a", "x")]
+               ("d", "@a", "x"),
+               # an environment reference before a reference to a definition
+               ("u", "(ZCV_SET)/$a"), ("u", "a $(ZCV_SET) ${b}"),
+               ("d", "c", "$(ZCV_SET)$a"), ("u", "a$(ZCV_SET)"),
+               # names of 32, 40 and 70 characters (one a prefix of the other)
+               ("d", "n" + "m" * 39, "x"), ("u", "n" + "m" * 39),
+               ("d", "n" + "m" * 31, "p"), ("u", "{n" + "m" * 69 + "}"),
+               ("d", "N" + "M" * 69, "y"), ("u", "n" + "m" * 31)]
 BOUND = {"quick": 2, "thorough": 3}
 RANDOM = {"quick": 4000, "thorough": 100000}
 
@@ -143,7 +150,7 @@ def render(files):
 
 
 def expected(texts):
-    st = refparse.State()
+    st = refparse.State(env={"ZCV_SET": "zcv-env-value"})
 
     def inc(parser, section, target, lineno):
         if target not in texts:
@@ -348,6 +355,7 @@ def run_shard(ctx):
     # '$name' must never be resolved from the process environment
     for n in ("a", "A", "b", "B", "c", "C"):
         os.environ[n] = "FROM-ENVIRONMENT"
+    os.environ["ZCV_SET"] = "zcv-env-value"
     schema = ZConfig.loadSchemaFile(io.StringIO(SCHEMA))
     hook = Hook(ctx.res)
     hook.install()
